@@ -26,7 +26,8 @@ TRUSTED = [
     "'serialised circuit'; a circuit is represented in the model by its label)",
     "json.dumps / open('w+') write exactly self.raw_data; Measurements.get_counts / get_distribution are the "
     "histogram / relative frequencies of the returned bitstrings (modelled as countsOf / empirical, compared exactly)",
-    "format(i, '0{n}b'), itertools.groupby: modelled by formatBin / segKeys, compared directly on grids",
+    "format(i, '0{n}b'), Wavefunction.get_outcome_probs keys + bitstring_to_tuple, itertools.groupby: modelled by "
+    "formatBin / outcomeTuple / segKeys, compared directly on grids",
 ]
 ASSUMPTIONS = [
     "circuits given to a tracker consist of gate operations only (to_dict raises AttributeError on "
@@ -37,7 +38,7 @@ ASSUMPTIONS = [
     "their exact increments (+1/+1 single, +len/+1 batch, +0/+0 distribution) are compared with the model only",
 ]
 
-KNOWN_SIGS = ("zero-width-circuit-tuples",)
+KNOWN_SIGS = ()   # no known findings left; both former ones are fixed in /repo and kept as regression inputs
 
 
 # --------------------------------------------------------------------------- real objects
@@ -255,6 +256,12 @@ def run_impl(c):
             return _history(c)
         if k == "format":
             return {"res": [int(ch) for ch in format(c["i"], "0" + str(c["n"]) + "b")]}
+        if k == "outcome":
+            import numpy as np
+            from orquestra.quantum.utils import bitstring_to_tuple
+            from orquestra.quantum.wavefunction import Wavefunction
+            wf = Wavefunction(np.array([1.0] + [0.0] * (2 ** c["n"] - 1)))
+            return {"res": [[int(b) for b in bitstring_to_tuple(key)] for key in wf.get_outcome_probs()]}
         if k == "segments":
             m, cls = _mods(), _classes()
             C = m["C"]
@@ -291,6 +298,8 @@ def requests(c, out):
                              "calls": calls, "tape": out["tape"]})]
     if k == "format":
         return [("format", {"i": c["i"], "n": c["n"]})]
+    if k == "outcome":
+        return [("outcome", {"i": i, "n": c["n"]}) for i in range(2 ** c["n"])]
     if k == "segments":
         return [("segments", {"flags": c["flags"]})]
     return []
@@ -336,6 +345,8 @@ def compare(c, out, resp):
     k = c["kind"]
     if k == "format":
         return None if out["res"] == r else f"format({c['i']}, '0{c['n']}b'): impl {out['res']} model {r}"
+    if k == "outcome":
+        return None if out["res"] == list(resp) else f"outcome tuples of a {c['n']}-qubit register: impl {out['res']} model {list(resp)}"
     if k == "segments":
         if out["keys"] != r:
             return f"split_circuit keys {out['keys']} model segKeys {r} for flags {c['flags']}"
@@ -561,6 +572,12 @@ def oracle(c, out):
     k = c["kind"]
     if k == "history":
         return _oracle_history(c, out)
+    if k == "outcome":
+        # every outcome of an n-qubit register is a tuple of n bits, all 2**n of them distinct
+        res = out["res"]
+        if len(res) != 2 ** c["n"] or len({tuple(t) for t in res}) != len(res) or any(len(t) != c["n"] for t in res):
+            return ("zero-width-circuit-tuples" if c["n"] == 0 else "bitstring-length",
+                    f"outcomes of a {c['n']}-qubit wavefunction are {res[:4]}…, not {2 ** c['n']} distinct tuples of length {c['n']}")
     if k == "segments":
         # the contract of split_circuit the simulator relies on: alternating keys, nothing lost, width kept
         want = [(kk, len(list(g))) for kk, g in itertools.groupby(c["flags"])]
@@ -585,7 +602,7 @@ def corpus():
     mp = {"n": None, "ops": [["H", 0], ["MP"], ["X", 1], ["MP"], ["MP"]]}
     symb = {"n": None, "ops": [["RXS", 0], ["H", 1]]}
     return [
-        # F8: zero-width circuit on a simulator -> tuples (0,)
+        # fixed 6292974 (F8): a zero-width circuit on a simulator must give tuples () (regression input)
         _hist(sym, [EMPTY], [{"op": "run", "c": 0, "n": 3}]),
         # fixed 8d91e2e: an empty batch with a non-positive scalar count must be rejected (regression input)
         _hist(base, [bell], [{"op": "batch", "cs": [], "n": 0}, {"op": "batch", "cs": [], "n": -2}]),
@@ -602,6 +619,7 @@ def corpus():
                {"op": "batch", "cs": [], "ns": []}]),
         _hist(sym, [symb], [{"op": "run", "c": 0, "n": 2}, {"op": "dist", "c": 0, "n": None}, {"op": "dist", "c": 0, "n": 2}]),
         {"kind": "format", "i": 0, "n": 0},
+        {"kind": "outcome", "n": 0},
         {"kind": "segments", "flags": [True, False, False, True]},
     ]
 
@@ -690,6 +708,8 @@ def generate(rng, tier):
     for i in range(0, 40 if big else 12):           # format(i, "0nb") grid incl. the zero-width corner
         for n in range(0, 8 if big else 5):
             cases.append({"kind": "format", "i": i, "n": n})
+    for n in range(0, 7 if big else 5):
+        cases.append({"kind": "outcome", "n": n})
     for _ in range(200 if big else 40):
         cases.append({"kind": "segments", "flags": [rng.random() < 0.5 for _ in range(rng.randrange(0, 9))]})
     maxw, maxn, maxbatch = (5, 40, 6) if big else (3, 10, 4)
